@@ -192,5 +192,10 @@ def r_mir(ctx, rep, kinds=("R-INDEX", "R-ARITH", "R-ALLOC", "R-AMP", "R-PANIC"))
                     # the constant length need of a new helper, reported at its call site in an existing function
                     facts = {"new_fn": new_short[s.sig.split(" ")[1]], "family": [fnb]}
                 rep.violation(s.kind, key, s.where, "%s: %s.  %s" % (s.fn, s.detail, WHY[s.kind]), facts=facts)
+    try:
+        P0, _ = analyse(ctx, ctx.configs()[0])
+        rep.notes.append("debug_assert! sites counted and not reported (debug-only assertions, DESIGN.md 19g): %d" % getattr(P0, "debug_asserts", 0))
+    except Exception:  # noqa: BLE001 -- a note only
+        pass
     if n_sites < 300:
         rep.anchor_missing("R-MIR", "MIR sites in the reader modules (found %d)" % n_sites)
